@@ -16,7 +16,7 @@ func init() {
 		"non-trivial = not the all-valid document; distinct = (source hash, document)"
 }
 
-var c11Devs = []string{"LEN_BYTES", "REQUIRED_UNDECLARED_IGNORED", "ANYOF_MERGED_FIELD_TYPES", "ALLOF_FIRST_WINS", "COMPOSITE_DEF_REF_IS_ANY", "REF_UNTYPED_DEF_IS_ANY"}
+var c11Devs = []string{"LEN_BYTES", "REQUIRED_UNDECLARED_IGNORED", "ANYOF_MERGED_FIELD_TYPES", "ALLOF_FIRST_WINS", "COMPOSITE_DEF_REF_IS_ANY", "REF_UNTYPED_DEF_IS_ANY", "ALLOF_MERGE_MUTATES_SHARED_DEFINITION"}
 
 type c11Branch struct {
 	props []string
@@ -195,6 +195,11 @@ func c11(ctx *Ctx) {
 	// different values (both must hold; the current implementation keeps the first: listed finding ALLOF_FIRST_WINS)
 	runBehaviour(ctx, behaviour{Name: "overlap", Cases: c11Overlap(ctx.Level), Devs: c11Devs, Values: true,
 		DocFilter: func(sc *SCase, d *refmodel.Doc, tv refmodel.Verdict) bool { return !strings.Contains(d.Class, "type:") }})
+	// two composite lists that share one definition by reference: what one list adds to a property of the definition must not
+	// show in the other list, nor in a plain reference to the definition
+	shared, sharedDocs := c11Shared(ctx.Level)
+	runBehaviour(ctx, behaviour{Name: "shared", Cases: shared, Devs: c11Devs, Values: true,
+		DocGen: func(sc *SCase, m *refmodel.Model) []refmodel.Doc { return sharedDocs[sc.ID] }})
 	ctx.Run.Assume("branches are object schemas over three properties with fixed, identical property schemas (no two branches constrain the same property differently in the quick tier)",
 		"documents spell integers without fraction/exponent")
 }
@@ -238,6 +243,85 @@ func c11Docs(path []any) []refmodel.Doc {
 		}
 	}
 	return out
+}
+
+// c11Shared: x and y are composite lists that both contain {"$ref": Base}; one of them adds a keyword to Base's property p, the
+// other adds an unrelated property; z refers to Base plainly. Documents: p absent / fine for both / violating only the added
+// keyword / of the wrong type, independently under x, y and z.
+func c11Shared(level int) ([]SCase, map[string][]refmodel.Doc) {
+	type kw struct {
+		name        string
+		base, extra J
+		ok, bad, wt any
+	}
+	n := func(s string) any { return jsonv.MustParse(s) }
+	kws := []kw{
+		{"maxLength", J{"type": "string"}, J{"type": "string", "maxLength": 3}, "ab", "abcd", n("1")},
+		{"minimum", J{"type": "integer"}, J{"type": "integer", "minimum": 5}, n("7"), n("2"), "x"},
+		{"pattern", J{"type": "string", "minLength": 1}, J{"type": "string", "pattern": "^a"}, "ab", "b", true},
+	}
+	var out []SCase
+	docs := map[string][]refmodel.Doc{}
+	for _, k := range kws {
+		for _, comp := range []string{"allOf", "anyOf"} {
+			for _, constrainer := range []string{"x", "y"} {
+				for _, refFirst := range []bool{true, false} {
+					if level == 0 && (k.name == "pattern" || (comp == "anyOf" && !refFirst)) {
+						continue
+					}
+					base := J{"type": "object", "properties": J{"p": space.Clone(k.base), "k": J{"type": "boolean"}}}
+					constraining := J{"type": "object", "properties": J{"p": space.Clone(k.extra)}}
+					other := J{"type": "object", "properties": J{"o": J{"type": "integer"}}}
+					ref := J{"$ref": "#/$defs/Base"}
+					lc := A{ref, constraining}
+					if !refFirst {
+						lc = A{constraining, ref}
+					}
+					lo := A{J{"$ref": "#/$defs/Base"}, other}
+					props := J{"z": J{"$ref": "#/$defs/Base"}}
+					plain := "y"
+					if constrainer == "y" {
+						plain = "x"
+					}
+					props[constrainer] = J{comp: lc}
+					props[plain] = J{"allOf": lo}
+					root := J{"type": "object", "properties": props, "$defs": J{"Base": base}}
+					id := fmt.Sprintf("C11/shared/%s/%s/constrainer=%s/refFirst=%v", k.name, comp, constrainer, refFirst)
+					out = append(out, SCase{ID: id, Schema: root, Cfg: baseCfg(), Axes: map[string]string{"pos": "shared", "leaf": k.name, "composite": comp}})
+					vals := []any{nil, k.ok, k.bad, k.wt}
+					cls := []string{"absent", "valid", "violating-added-keyword", "wrongtype"}
+					var ds []refmodel.Doc
+					for ix := 0; ix < 4; ix++ {
+						for iy := 0; iy < 4; iy++ {
+							for iz := 0; iz < 4; iz++ {
+								o := map[string]any{}
+								for name, i := range map[string]int{"x": ix, "y": iy, "z": iz} {
+									if i > 0 {
+										o[name] = map[string]any{"p": vals[i], "k": true}
+									} else {
+										o[name] = map[string]any{"k": true}
+									}
+								}
+								class := fmt.Sprintf("assign(x:%s,y:%s,z:%s)", cls[ix], cls[iy], cls[iz])
+								if ix == 1 && iy == 1 && iz == 1 {
+									class = "base"
+								}
+								ds = append(ds, refmodel.Doc{V: o, Text: jsonv.Text(o), Class: class})
+							}
+						}
+					}
+					// the base document first
+					for i, d := range ds {
+						if d.Class == "base" {
+							ds[0], ds[i] = ds[i], ds[0]
+						}
+					}
+					docs[id] = ds
+				}
+			}
+		}
+	}
+	return out, docs
 }
 
 func c11Overlap(level int) []SCase {
